@@ -7,6 +7,7 @@
 (*           fired = a storage statement was made to fail inside it        *)
 (*           (sqlite only; the in-memory server is not called then)        *)
 (*   reopen  the sqlite storage was closed and opened again; its listing   *)
+(*   bulk    several hundred registrations at once; both listings          *)
 (* The monitor replays the history on the map of NameServer.tla and        *)
 (* requires every result and every listing to be the model's.              *)
 (***************************************************************************)
@@ -50,6 +51,17 @@ OpStep(e) ==
               ELSE IF NormItems(e.sqllist) # all THEN Flag("C14.State.sqlite." \o e.o.op)
               ELSE bad
 
+\* bulk: several hundred registrations made in one go on both servers (the harness does them one by one; the monitor takes the
+\* entries as given and requires both listings to be exactly the map with those entries added)
+RECURSIVE PutAll(_, _, _)
+PutAll(m, s, i) == IF i > Len(s) THEN m ELSE PutAll(NS!Put(m, s[i].name, s[i].uri, NS!Range(s[i].tags)), s, i + 1)
+BulkStep(e) ==
+    LET m2 == PutAll(map, e.entries, 1)
+        all == NS!Entries(m2, DOMAIN m2) IN
+    /\ map' = m2
+    /\ bad' = IF NormItems(e.memlist) # all THEN Flag("C14.State.memory.bulk")
+              ELSE IF NormItems(e.sqllist) # all THEN Flag("C14.State.sqlite.bulk") ELSE bad
+
 ReopenStep(e) ==
     /\ map' = map
     /\ bad' = IF NormItems(e.sqllist) # NS!Entries(map, DOMAIN map) THEN Flag("C14.Reopen") ELSE bad
@@ -58,6 +70,7 @@ Step == /\ l <= Len(Tr)
         /\ l' = l + 1 /\ t' = t /\ UNCHANGED <<last, lastop>>
         /\ IF Tr[l].e = "op" THEN OpStep(Tr[l])
            ELSE IF Tr[l].e = "reopen" THEN ReopenStep(Tr[l])
+           ELSE IF Tr[l].e = "bulk" THEN BulkStep(Tr[l])
            ELSE map' = map /\ bad' = Flag("Monitor.UnknownEvent")
 Spec == Init /\ [][Step]_vars
 Verdict == (l = Len(Tr) + 1) => PrintT(<<"VERDICT", t, bad>>)
